@@ -13,12 +13,16 @@ cmd=$(python3 -c "import json,sys;print(json.load(open('$src/out/$mk/meta.json')
 mkdir -p "$wt/out"; cp -r "$src/out/$mk" "$wt/out/$mk"; [ -f "$src/out/go.mod" ] && cp "$src/out/go.mod" "$wt/out/go.mod"
 cd "$wt"
 echo "== demo on clean tree: $cmd" >> "$log"
-( sh -c "$cmd" ) >> "$log" 2>&1; clean_rc=$?
+( sh -c "$cmd" ) > "$dst/demo_clean.out" 2>&1; clean_rc=$?
+grep -q -e '^FAIL' -e '--- FAIL' -e '^panic:' "$dst/demo_clean.out" && clean_rc=1
+cat "$dst/demo_clean.out" >> "$log"
 git checkout -q -- . 2>/dev/null
 if ! git apply "out/$mk/patch.diff" 2>>"$log"; then echo "RESULT patch-does-not-apply" >> "$log"; cd /; git -C /repo worktree remove --force "$wt"; exit 1; fi
 go build ./... >> "$log" 2>&1; build_rc=$?
 echo "== demo with mutant" >> "$log"
-( sh -c "$cmd" ) >> "$log" 2>&1; mut_rc=$?
+( sh -c "$cmd" ) > "$dst/demo_mutant.out" 2>&1; mut_rc=$?
+grep -q -e '^FAIL' -e '--- FAIL' -e '^panic:' "$dst/demo_mutant.out" && mut_rc=1
+cat "$dst/demo_mutant.out" >> "$log"
 echo "== test suite with mutant" >> "$log"
 pk=$(go list ./... | grep -v '/out/')
 go test -vet=off -count=1 $pk > "$dst/tests.log" 2>&1; test_rc=$?
